@@ -30,6 +30,7 @@ func runC01(c *core.Ctx) {
 	c.RuleDoc("R01.7", "an entry is created only below an existing directory (os: ENOTDIR / ENOENT) — the analysis of R03.1")
 	c.RuleDoc("R01.8", "a record is stored under a path only where that path was found absent or not a directory (os: rename of a file onto a directory fails) — the analysis of R03.5")
 	c.RuleDoc("R01.9", "the in-memory listing compares child names with constants only")
+	c.RuleDoc("R01.12", "times are compared with IsZero/Equal, never with == (a zero time in another zone means 'leave unchanged')")
 	c.RuleDoc("R01.11", "a name that leads through a regular file fails as in os (ENOTDIR), so RemoveAll of it fails too (= R05.7)")
 	c.RuleDoc("R01.10", "Chmod, Stat, Rename, reads, seeks, ReadDir and Close never store a modification time")
 	c.RuleDoc("R01.4", "MkdirAll reports success only after the path's ancestors and the path itself were classified")
@@ -53,6 +54,7 @@ func runC01(c *core.Ctx) {
 		}
 		r01ListingFilter(c, p)
 		r01ModTimeWriters(c, p, sh)
+		r01TimesComparedByValue(c, p)
 		if p.Target == load.Linux {
 			r05NotDirThroughFile(c, p, "R01.11")
 		}
@@ -67,6 +69,7 @@ func runC01(c *core.Ctx) {
 	c.Floor("R01.8", 5)
 	c.Floor("R01.9", 1)
 	c.Floor("R01.10", 10)
+	c.Floor("R01.12", 1)
 }
 
 type openSituation struct {
@@ -1191,4 +1194,37 @@ func fieldVarOf(fa *ssa.FieldAddr) *types.Var {
 		return nil
 	}
 	return st.Field(fa.Field)
+}
+
+// r01TimesComparedByValue (R01.12): a time.Time is never compared with == or != in the key-value and in-memory file
+// systems: the struct carries a location pointer, so the zero time of another zone is IsZero() but != time.Time{} —
+// os.Chtimes leaves a zero time's field unchanged, the struct comparison takes it for a real time (year 1).
+func r01TimesComparedByValue(c *core.Ctx, p *load.Program) {
+	bad := ""
+	n := 0
+	for _, rel := range []string{"keyvalue", "mem"} {
+		for _, fn := range pkgFuncs(p, rel) {
+			ssax.Instrs(fn, func(ins ssa.Instruction) {
+				switch x := ins.(type) {
+				case *ssa.BinOp:
+					if (x.Op == token.EQL || x.Op == token.NEQ) && strings.HasSuffix(x.X.Type().String(), "time.Time") {
+						bad = p.Pos(x.Pos()) + " in " + fname(fn)
+					}
+				case ssa.CallInstruction:
+					if callee := ssax.StaticCallee(x); callee != nil && callee.Signature.Recv() != nil && strings.HasSuffix(callee.Signature.Recv().Type().String(), "time.Time") && (callee.Name() == "IsZero" || callee.Name() == "Equal") {
+						n++
+					}
+				}
+			})
+		}
+	}
+	key := "keyvalue|times-compared-with-IsZero-or-Equal"
+	switch {
+	case bad != "":
+		c.Bad("R01.12", key, bad, fmt.Sprintf("a time.Time is compared with == / != at %s: a zero time that carries a location is IsZero() but not equal to time.Time{} — Chtimes(name, atime, time.Time{}.In(zone)) sets the modification time to year 1 where os.Chtimes leaves it unchanged", bad))
+	case n == 0:
+		c.Hard("anchor: no IsZero/Equal test of a time in keyvalue/mem (the 'unset override' test is gone)")
+	default:
+		c.OK("R01.12", key, "", "times are tested with IsZero/Equal only")
+	}
 }
